@@ -300,6 +300,15 @@ func (d *Data) PutBlocks(v dvid.VersionID, mutID uint64, start dvid.ChunkPoint3d
 			}
 		}
 	}
+
+	// The stored blocks extend the advertised extents like voxels stored through PutVoxels do.
+	if blockSize, ok := d.BlockSize().(dvid.Point3d); ok && readBlocks > 0 {
+		end := start
+		end[0] += int32(readBlocks - 1)
+		if err := d.PostExtents(ctx, start.MinPoint(blockSize), end.MaxPoint(blockSize)); err != nil {
+			return err
+		}
+	}
 	return nil
 }
 
